@@ -79,3 +79,19 @@ Theorem C14_splice_example :
   splice_all (s2l "GOTO 10:GOSUB 20")%string [((5, 7), 100); ((14, 16), 1000)] = Ok (s2l "GOTO 100:GOSUB 1000")%string.
 Proof. exact splice_example. Qed.
 Print Assumptions C14_splice_example.
+
+(* ---- what RENUM replaces are number tokens (Proofs/ParseCols.v, RenumCols.v) ---- *)
+From BL Require Import Lang.Token Lang.Ast Lang.Parse Proofs.ParseCols Proofs.RenumCols.
+
+(* every range the renumbering visitor collects from a parsed line -- whatever the statement forms, at any nesting of IF -- is
+   exactly the range of one number token of that line in its listed text *)
+Theorem C14_renum_replaces_number_tokens : forall n toks ast ch c nn, parse n toks = Ok ast ->
+  In (c, nn) (flat_map (renum_visit ch) ast) -> num_range toks c.
+Proof. exact renum_replaces_number_tokens. Qed.
+Print Assumptions C14_renum_replaces_number_tokens.
+
+(* and such a range, cut out of the listed text, is the digit string of that token *)
+Theorem C14_replaced_text_is_digits : forall toks c, num_range toks c ->
+  exists l s, In (TLit l) toks /\ is_lnum_lit l = Some s /\ cut (tokens_str toks) c = s.
+Proof. exact num_range_is_the_digits. Qed.
+Print Assumptions C14_replaced_text_is_digits.
